@@ -17,6 +17,7 @@ pub mod c13;
 pub mod c14;
 pub mod c15;
 pub mod c16;
+pub mod c17;
 
 pub fn lookup(id: &str) -> Option<(&'static str, fn(&mut Ctx))> {
     Some(match id {
@@ -36,6 +37,7 @@ pub fn lookup(id: &str) -> Option<(&'static str, fn(&mut Ctx))> {
         "C14" => ("C14", c14::run as fn(&mut Ctx)),
         "C15" => ("C15", c15::run as fn(&mut Ctx)),
         "C16" => ("C16", c16::run as fn(&mut Ctx)),
+        "C17" => ("C17", c17::run as fn(&mut Ctx)),
         _ => return None,
     })
 }
